@@ -159,6 +159,23 @@ def run_pending_signals(vt):
                 raise
 
 
+def safe_collect():
+    """gc.collect() that cannot trip over the CPython 3.12.1 crash
+    ('deallocated BytesIO object has exported buffers'): a BytesIO whose
+    buffer is exported refuses to be written to -- pin those first."""
+    import gc
+    import io
+    for o in gc.get_objects():
+        if type(o) is io.BytesIO:
+            try:
+                o.write(b'')
+            except BufferError:
+                _IMMORTAL.append(o)
+            except ValueError:
+                pass
+    gc.collect()
+
+
 # --------------------------------------------------------- per-process sys
 class _SysProxy:
     """``sys`` as seen by billiard.pool / billiard.common: ``exit`` is per
